@@ -132,6 +132,8 @@ pub fn run_d(seed: u64, ntraces: usize, only: Option<u64>) {
         let tok = b"TOK-123456".to_vec(); let tok2 = b"OTH-654321".to_vec();
         let all: Vec<VMAddress> = [owner.clone(), operator.clone(), relayer.clone(), dest.clone()].into_iter().chain(users.iter().cloned()).collect();
         for u in &all { w.add_user(u, 16_000_000_000_000_000_000); w.add_esdt(u, &tok, 1_000_000); w.add_esdt(u, &tok2, 1_000_000); w.add_esdt(u, b"EGLD-123456", 1_000_000); }
+        // a caller that is itself a contract account (a multisig, a wrapper), used by schedule 5 only: refunds go to it like to anybody else
+        let scu = sc_addr(0x66); if d == 5 { w.add_contract_user(&scu, 1_000_000); }
         let gw = sc_addr(0x10); let gas = sc_addr(0x12); let tmt = sc_addr(0x13); let its = sc_addr(0x14);
         let pool = Pool::new();
         let set = SSet { signers: vec![SignerE { pk: pool.pk(0), key: Some(0), weight: bn(1) }], threshold: bn(1), nonce: vec![7u8; 32] };
@@ -158,12 +160,13 @@ pub fn run_d(seed: u64, ntraces: usize, only: Option<u64>) {
         args.push(big(chains.len() as u64)); for (_, a) in &chains { args.push(a.clone()); }
         let st = w.deploy(&owner, &its, b"its", args);
         let mut tracked: Vec<String> = all.iter().map(|u| hx(u.as_bytes())).collect();
-        tracked.extend([hx(its.as_bytes()), hx(gw.as_bytes()), hx(gas.as_bytes())]);
+        tracked.extend([hx(its.as_bytes()), hx(gw.as_bytes()), hx(gas.as_bytes())]); if d == 5 { tracked.push(hx(scu.as_bytes())); }
         for k in 0..12u8 { tracked.push(hx(sc_addr(0x40 + k).as_bytes())); }
         let init = json!({"its": hx(its.as_bytes()), "gw": hx(gw.as_bytes()), "gas": hx(gas.as_bytes()), "tm_impl": hx(tmt.as_bytes()), "owner": hx(owner.as_bytes()),
             "operator": hx(operator.as_bytes()), "chain": hx(&own_chain), "trusted": chains.iter().map(|(c, a)| json!([hx(c), hx(a)])).collect::<Vec<_>>(),
             "gwnow": now, "retention": 2, "domain": hx(&domain), "gwdelay": 0, "gwop": hx(owner.as_bytes()), "signers": [hx(&set.encode(0))],
-            "tracked": tracked, "funds": all.iter().map(|u| json!([hx(u.as_bytes()), "16000000000000000000", [[hx(&tok), "1000000"], [hx(&tok2), "1000000"], [hx(b"EGLD-123456"), "1000000"]]])).collect::<Vec<_>>(),
+            "tracked": tracked, "funds": all.iter().map(|u| json!([hx(u.as_bytes()), "16000000000000000000", [[hx(&tok), "1000000"], [hx(&tok2), "1000000"], [hx(b"EGLD-123456"), "1000000"]]]))
+                .chain((if d == 5 { vec![json!([hx(scu.as_bytes()), "1000000", []])] } else { vec![] }).into_iter()).collect::<Vec<_>>(),
             "res": st.json});
         let mut g = W { w, its: its.clone(), gw: gw.clone(), gas: gas.clone(), owner: owner.clone(), operator: operator.clone(), relayer: relayer.clone(), users: users.clone(), dest: dest.clone(),
             pool, tab: SigTab(vec![]), set, domain, now, steps: vec![], pend: vec![], next_id: 0, next_tm: 0, msg: 0, toks: vec![], paused: false, proposed: None, last_in: None };
@@ -193,6 +196,9 @@ pub fn run_d(seed: u64, ntraces: usize, only: Option<u64>) {
             }
         }
         if d == 5 {
+            // first: the CONTRACT account registers token metadata with gas attached; the lookup reports a non-fungible token: the gas goes back to that contract
+            g.its_tx("registerMetadata", &scu, "registerTokenMetadata", vec![tok2.clone()], 666, &[], json!({"token": hx(&tok2)}));
+            script.push(29);
             let u = g.users[1].clone();
             let (ok, rets, dep) = g.its_tx("registerCanonical", &u, "registerCanonicalInterchainToken", vec![tok.clone()], 0, &[], json!({"token": hx(&tok)}));
             if ok {
